@@ -8,7 +8,7 @@ from execclient import Script, hx, by_index
 from model_lang import Model, compare, dump_to_plain
 from runner import Failure, Outcome, h64
 from schema import (HAND, emit_schema, schemas, walk, F_COMMENTS, F_IGNORE_UNKNOWN, F_NOCASE, F_MULTI, F_TITLE, F_LIST,
-                    F_KEYSTRVAL, F_NODEFAULT, F_NO_TITLE_DUPES, F_DEPRECATED, F_DROP, o_int, o_list, o_sec, o_func, o_str)
+                    F_KEYSTRVAL, F_NODEFAULT, F_NO_TITLE_DUPES, F_DEPRECATED, F_DROP, F_SIMPLE, o_int, o_list, o_sec, o_func, o_str)
 
 # fixed schemas for the exhaustive token-sequence pass
 EX_SCHEMAS = {
@@ -121,7 +121,7 @@ class C01:
             if o["k"] == "sec" and (o["f"] & F_KEYSTRVAL):
                 fl |= F_KEYSTRVAL
         for bit, nm in ((F_DEPRECATED, "deprecated"), (F_DROP, "drop"), (F_KEYSTRVAL, "keystrval"), (F_NODEFAULT, "nodefault"),
-                        (F_NO_TITLE_DUPES, "unique-titles"), (F_TITLE, "titles"), (F_MULTI, "multi")):
+                        (F_NO_TITLE_DUPES, "unique-titles"), (F_TITLE, "titles"), (F_MULTI, "multi"), (F_SIMPLE, "simple-option")):
             if fl & bit:
                 c.append(nm)
         if info["accepted"]:
@@ -201,7 +201,7 @@ class C01:
                 sc = draw(st.sampled_from(hand))
                 opts = HAND[sc]
             else:
-                opts = draw(schemas(nocase=bool(flags & F_NOCASE), allow_func=True, allow_single_title=True))
+                opts = draw(schemas(nocase=bool(flags & F_NOCASE), allow_func=True, allow_single_title=True, allow_simple=True))
                 sc = opts
             nt = draw(st.integers(1, 4))
             texts = []
